@@ -30,6 +30,7 @@ type In struct {
 	Extra    []int // index kinds: per extra dependency key -1 absent or variant index (first paragraph only)
 	BufSize  int   // size of the caller's bufio.Reader (0 = default)
 	Delivery int   // gen.Delivery mode
+	Peek     int   `json:",omitempty"` // the caller has looked ahead in its bufio.Reader before handing it over: 1 = one byte, 2 = as much as one fill gives
 	Devs     []string
 	// Via selects the entry point: "" = Parse<Kind>(reader, path); otherwise Parse<Kind>File with the document on disk
 	// and the path given as "file-abs" (absolute), "file-rel" (bare name, working directory = its directory),
@@ -305,6 +306,13 @@ func parse(in In, text string) (paras []reflect.Value, err error) {
 		br = bufio.NewReaderSize(rd, in.BufSize)
 	} else {
 		br = bufio.NewReader(rd)
+	}
+	switch in.Peek {
+	case 1:
+		br.Peek(1)
+	case 2:
+		br.Peek(1)
+		br.Peek(br.Buffered())
 	}
 	switch in.Kind {
 	case "dsc":
@@ -765,7 +773,12 @@ func buildIn(kd *kindDef, x *mc.X, env bool) (In, []string) {
 	case 2:
 		in.BufSize = 65536
 	}
-	in.Delivery = dev(3, "delivery")
+	in.Peek = dev(3, "caller-peeked")
+	if d := dev(6, "delivery"); d < 3 {
+		in.Delivery = d
+	} else {
+		in.Delivery = 2 - d // -1, -2, -3: final bytes together with io.EOF (whole / chunked), (0, nil) answers
+	}
 	in.Devs = devs
 	return in, devs
 }
